@@ -54,3 +54,54 @@ fn peers_inside_any_listed_network_are_served_all_others_get_403() {
         }
     });
 }
+
+/// reads one HTTP/1.1 response with a Content-Length from a blocking stream
+fn read_response(stream: &mut std::net::TcpStream) -> (u16, String) {
+    let mut buf: Vec<u8> = Vec::new();
+    let mut byte = [0u8; 1];
+    while !buf.ends_with(b"\r\n\r\n") {
+        if stream.read(&mut byte).unwrap_or(0) == 0 { break; }
+        buf.push(byte[0]);
+    }
+    let head = String::from_utf8_lossy(&buf).to_string();
+    let status: u16 = head.split_whitespace().nth(1).and_then(|s| s.parse().ok()).unwrap_or(0);
+    let len: usize = head.lines().find_map(|l| l.to_ascii_lowercase().strip_prefix("content-length:").map(|v| v.trim().parse().unwrap_or(0))).unwrap_or(0);
+    let mut body = vec![0u8; len];
+    stream.read_exact(&mut body).unwrap();
+    (status, String::from_utf8_lossy(&body).to_string())
+}
+
+#[test]
+fn every_scrape_is_a_rendering_of_the_metrics_at_that_time() {
+    use metrics::{Key, Level, Metadata, Recorder};
+    static M: Metadata<'static> = Metadata::new("w", Level::INFO, None);
+    let rt = tokio::runtime::Builder::new_multi_thread().enable_all().build().unwrap();
+    rt.block_on(async {
+        let port = tokio::net::TcpListener::bind("127.0.0.1:0").await.unwrap().local_addr().unwrap().port();
+        let addr = SocketAddr::from(([127, 0, 0, 1], port));
+        let (recorder, exporter) = PrometheusBuilder::new().with_http_listener(addr).build().unwrap();
+        rt.spawn(exporter);
+        tokio::time::sleep(std::time::Duration::from_millis(200)).await;
+        let gauge = recorder.register_gauge(&Key::from_name("level"), &M);
+        gauge.set(1.0);
+        tokio::task::spawn_blocking(move || {
+            // several scrapes over ONE connection (keep-alive), the value changes in between
+            let mut stream = std::net::TcpStream::connect(addr).unwrap();
+            for (i, v) in [1.0f64, 2.0, 3.0].iter().copied().enumerate() {
+                gauge.set(v);
+                stream.write_all(b"GET /metrics HTTP/1.1\r\nHost: w\r\n\r\n").unwrap();
+                let (status, body) = read_response(&mut stream);
+                assert_eq!(status, 200);
+                assert!(body.contains(&format!("level {v}")), "scrape #{i} on one connection must show the value at that time ({v}):\n{body}");
+            }
+            // and on a fresh connection
+            gauge.set(9.0);
+            let mut s2 = std::net::TcpStream::connect(addr).unwrap();
+            s2.write_all(b"GET / HTTP/1.1\r\nHost: w\r\n\r\n").unwrap();
+            let (_, body) = read_response(&mut s2);
+            assert!(body.contains("level 9"));
+        })
+        .await
+        .unwrap();
+    });
+}
